@@ -225,6 +225,13 @@ func callCase(s *session, c *caseSpec) (v interface{}, err error, hung bool) {
 	ch := make(chan ret, 1)
 	cl := s.c
 	go func() {
+		// a panic inside the library client (in the caller's goroutine) is an outcome of this case, not the
+		// end of the monitor: it is reported as the call's error and judged as a lost / garbled answer
+		defer func() {
+			if p := recover(); p != nil {
+				ch <- ret{nil, fmt.Errorf("PANIC in the library client while delivering the answer: %v", p)}
+			}
+		}()
 		switch c.Method {
 		case mTool:
 			req := &mcp.CallToolRequest{}
